@@ -28,7 +28,8 @@ CtxDele(v) == IF v = "G" THEN "deleG" ELSE "deleI"
 CtxSrep == "srep"
 
 \* delegations: who is certified and for which window relative to the response midpoint
-Deles == {[pubk |-> k, win |-> w] : k \in {"OLK", "OLKx"}, w \in {"covers", "starts_after", "ends_before"}}
+\* ("inverted_lo": MAXT < MINT <= midpoint, "inverted_hi": midpoint <= MAXT < MINT - windows that contain nothing)
+Deles == {[pubk |-> k, win |-> w] : k \in {"OLK", "OLKx"}, w \in {"covers", "starts_after", "ends_before", "inverted_lo", "inverted_hi"}}
 HonestDele == [pubk |-> "OLK", win |-> "covers"]
 
 \* signed responses: midpoint value class and which root they carry
@@ -40,7 +41,9 @@ HonestSrep(v) == [midp |-> "now", root |-> "this", ver |-> v]
 
 \* what honest keys ever signed bounds what the adversary can attach
 CertSigs(v, d) == {JunkSig} \cup {Sig("LTKx", CtxDele(v2), d) : v2 \in Versions}
-                  \cup (IF d = HonestDele THEN {Sig("LTK", CtxDele(v2), d) : v2 \in Versions} ELSE {})
+                  \* the genuine long-term key certifies its own online key - also (a faulty but genuine server) for a
+                  \* window that does not contain the midpoint: the window is a condition of its own
+                  \cup (IF d.pubk = "OLK" THEN {Sig("LTK", CtxDele(v2), d) : v2 \in Versions} ELSE {})
 \* the honest online key signed: this response, old responses, the other protocol's responses - all with midp "now"
 SrepSigs(sr) == {JunkSig} \cup {Sig("OLKx", CtxSrep, sr)}
                 \cup (IF sr.midp = "now" /\ sr.root \in {"this", "old", "otherproto"} THEN {Sig("OLK", CtxSrep, sr)} ELSE {})
